@@ -29,6 +29,15 @@ ASSUMPTIONS = ["healpy.query_disc/query_polygon(inclusive=True) return a "
                "healpy angle conventions (colatitude, longitude in radians)"]
 
 MUTANTS = [
+    ("huge discs queried and stored at a coarser level",
+     "AegeanTools/regions.py",
+     "            pix = hp.query_disc(2**depth, vec, r, inclusive=True, nest=True)\n"
+     "            self.add_pixels(pix, depth)",
+     "            qdepth = depth\n"
+     "            while qdepth > 3 and 128*hp.nside2resol(2**qdepth) < r:\n"
+     "                qdepth -= 1\n"
+     "            pix = hp.query_disc(2**qdepth, vec, r, inclusive=True, nest=True)\n"
+     "            self.add_pixels(pix, qdepth)", "C09-R1"),
     ("sub-pixel circles reduced to the pixel of their centre",
      "AegeanTools/regions.py",
      "            pix = hp.query_disc(2**depth, vec, r, inclusive=True, nest=True)\n",
@@ -531,6 +540,49 @@ def query_rule(ctx, prog, ci, rule):
                       (norm(nside) if nside is not None else None,
                        depth_txt), node=c)
     ctx.floor(rule, n, 2, "healpy query calls")
+    # the storage level is the requested depth, whatever the shape's size
+    for m in ("add_circles", "add_poly"):
+        fi = ci.methods.get(m)
+        if fi is None:
+            continue
+        geom = {p_ for p_ in fi.params if p_ not in ("self", "depth")}
+        tainted = set(geom)
+        changed = True
+        while changed:
+            changed = False
+            for st in ast.walk(fi.node):
+                new_ = set()
+                if isinstance(st, ast.Assign) and tainted & names_in(
+                        st.value):
+                    for t in st.targets:
+                        new_ |= {x.id for x in ast.walk(t)
+                                 if isinstance(x, ast.Name)}
+                elif isinstance(st, ast.For) and tainted & names_in(st.iter):
+                    new_ |= {x.id for x in ast.walk(st.target)
+                             if isinstance(x, ast.Name)}
+                elif isinstance(st, (ast.While, ast.If)) and \
+                        tainted & names_in(st.test):
+                    for y in ast.walk(st):
+                        if isinstance(y, (ast.Assign, ast.AugAssign)):
+                            for t in (y.targets if isinstance(y, ast.Assign)
+                                      else [y.target]):
+                                new_ |= {x.id for x in ast.walk(t)
+                                         if isinstance(x, ast.Name)}
+                if new_ - tainted:
+                    tainted |= new_
+                    changed = True
+        for a in walk_no_nested(fi.node):
+            if isinstance(a, ast.Call) and norm(a.func) == "self.add_pixels" \
+                    and len(a.args) > 1:
+                dep = names_in(a.args[1]) & tainted
+                ctx.check(rule, fi, "storage level of %s independent of the "
+                          "shape" % m, not dep,
+                          "the level `%s` under which %s stores its pixels "
+                          "depends on the shape (%s): a large shape is "
+                          "stored with coarser pixels than the region's "
+                          "resolution, so its rim reaches more than three "
+                          "pixel sizes beyond the shape" %
+                          (norm(a.args[1]), m, sorted(dep)), node=a)
     # every pixel list a shape builder stores comes from such a query
     QUERIES = ("healpy.query_disc", "healpy.query_polygon")
     for m in ("add_circles", "add_poly"):
